@@ -26,6 +26,7 @@ from typing import Tuple, Dict, List, Optional, Set
 
 from vzstatic import cfg as cfgmod
 from vzstatic import flow
+from vzstatic import pathcond
 from vzstatic.index import ClassInfo, FuncInfo, dotted
 from vzstatic.selftest import Variant
 from vzstatic.source import AnalysisError, ancestors, loc, unparse
@@ -250,12 +251,28 @@ def r2_loader(ctx) -> None:
             'get_active_trials does not return every ACTIVE trial', construct='active', func=fa.qualname)
   # dump/load same key
   def keys(fn):
+    """Metadata keys the method touches: subscripts / membership tests on the metadata object (dump: the value it
+    returns; load: its parameter), resolved to the constant they name."""
+    carriers = {p for p in fn.params if p not in ('self', 'cls')}
+    for x in ast.walk(fn.node):
+      if isinstance(x, ast.Return) and isinstance(x.value, ast.Name):
+        carriers.add(x.value.id)
+
+    def key_of(e):
+      v = e
+      if isinstance(e, ast.Name) and e.id in fn.module.assigns:
+        v = fn.module.assigns[e.id]
+      return repr(v.value) if isinstance(v, ast.Constant) else unparse(e, 0)
     out = set()
     for x in ast.walk(fn.node):
-      if isinstance(x, ast.Subscript) and isinstance(x.value, ast.Name) and x.value.id == 'md':
-        out.add(unparse(x.slice, 0))
-      if isinstance(x, ast.Compare) and isinstance(x.ops[0], ast.In) and isinstance(x.comparators[0], ast.Name) and x.comparators[0].id == 'md':
-        out.add(unparse(x.left, 0))
+      if isinstance(x, ast.Subscript) and isinstance(x.value, ast.Name) and x.value.id in carriers:
+        out.add(key_of(x.slice))
+      if isinstance(x, ast.Compare) and isinstance(x.ops[0], (ast.In, ast.NotIn)) and isinstance(x.comparators[0], ast.Name) \
+          and x.comparators[0].id in carriers:
+        out.add(key_of(x.left))
+      if isinstance(x, ast.Call) and isinstance(x.func, ast.Attribute) and x.func.attr in ('get', 'get_or_error', 'pop') \
+          and isinstance(x.func.value, ast.Name) and x.func.value.id in carriers and x.args:
+        out.add(key_of(x.args[0]))
     return out
   kd, kl = keys(ci.methods['dump']), keys(ci.methods['load'])
   ctx.check(kd == kl and len(kd) == 1, 'R2', 'dump/load use one metadata key', ci.methods['dump'].node,
@@ -286,12 +303,20 @@ def r3_stateless(ctx) -> None:
             construct='queries', func=fi.qualname)
   g = cfgmod.CFG(fi.node)
   prov = flow.Provenance(g, on_call=lambda c: 'args' if (dotted(c.func) or '').endswith(('CompletedTrials', 'ActiveTrials')) else 'stop')
-  upd = [c for c in flow.calls_in(fi.node) if (dotted(c.func) or '').endswith('designer.update')]
+  prov_recv = flow.Provenance(g)
+
+  def from_factory(c) -> bool:
+    nd = g.node_of(c)
+    return nd is not None and any(k == 'call' and (dotted(v.func) or '') == 'self._designer_factory'
+                                  for k, v in prov_recv.origins(c.func.value, nd))
+  upd = [c for c in flow.calls_in(fi.node) if isinstance(c.func, ast.Attribute) and c.func.attr == 'update'
+         and ((dotted(c.func) or '').endswith('designer.update') or from_factory(c))]
   ok = False
   if upd:
     node = g.node_of(upd[0])
     srcs = []
-    for a in upd[0].args:
+    kws = {k.arg: k.value for k in upd[0].keywords}
+    for a in list(upd[0].args) + [kws[k] for k in ('completed', 'all_active') if k in kws]:
       o = prov.origins(a, node)
       for k, v in o:
         if k == 'call' and (dotted(v.func) or '').endswith('.GetTrials'):
@@ -322,6 +347,34 @@ def r6_fresh_policy(ctx) -> None:
              'the stale designer keeps suggesting for the old search space and never sees the new study\'s trials')
             if stores else 'PythiaServicer does not build the policy from the request',
             construct='factory-state', func=pf.qualname)
+
+
+def _filter_model(call: FuncInfo):
+  """TrialFilter.__call__ interpreted on a finite model (fields unset / empty / small sets and bounds 0 and 2 against
+  trial ids 0..3 and two states): rows where the result differs from `every set field is satisfied`."""
+  param = [p for p in call.params if p != 'self'][0]
+  wrongs = []
+  n_rows = 0
+  hook = pathcond.method_hook({m.name: m.node for m in call.cls.methods.values()} if getattr(call, 'cls', None) else {})
+  try:
+    for ids in (None, frozenset(), frozenset({0}), frozenset({1, 3})):
+      for lo in (None, 0, 2):
+        for hi in (None, 0, 2):
+          for status in (None, frozenset(), frozenset({'A'}), frozenset({'A', 'B'})):
+            for tid in (0, 1, 2, 3):
+              for tstat in ('A', 'C'):
+                env = {'self.ids': ids, 'self.min_id': lo, 'self.max_id': hi, 'self.status': status,
+                       f'{param}.id': tid, f'{param}.status': tstat, '__callhook__': hook}
+                got = bool(pathcond.run_concrete(call.node, env))
+                want_ = (ids is None or tid in ids) and (lo is None or tid >= lo) and (hi is None or tid <= hi) \
+                    and (status is None or tstat in status)
+                n_rows += 1
+                env.pop('__callhook__')
+                if got != want_:
+                  wrongs.append((env, got))
+  except pathcond.NoValue as e:
+    raise AnalysisError(f'TrialFilter.__call__: cannot be evaluated on the finite model ({e})')
+  return wrongs, n_rows
 
 
 # ----------------------------------------------------------------------- R4
@@ -369,12 +422,18 @@ def r4_filters(ctx) -> None:
   # TrialFilter.__call__ tests every field
   tfc = ctx.index.need_class('vizier._src.pyvizier.shared.trial.TrialFilter')
   call = tfc.methods['__call__']
-  txt = unparse(call.node, 0)
-  checks = {'ids': 'trial.id not in self.ids', 'min_id': 'trial.id < self.min_id', 'max_id': 'trial.id > self.max_id',
-            'status': 'trial.status not in self.status'}
-  for fld, frag in checks.items():
-    ctx.check(frag in txt, 'R4', f'TrialFilter applies {fld}', call.node, frag,
-              f'TrialFilter.__call__ does not reject on `{frag}`', construct=fld, func=call.qualname)
+  # decided on a finite model: every combination of unset / set filter fields against trial ids and states
+  # around the bounds; the filter must select exactly the trials that satisfy every set field
+  wrongs, n_rows = _filter_model(call)
+  wrong = min(wrongs, key=lambda w: sum(v is not None for k, v in w[0].items() if k.startswith('self.'))) if wrongs else None
+  ctx.count('trial_filter_model_rows', n_rows)
+  for fld in ('ids', 'min_id', 'max_id', 'status'):
+    bad_here = wrong is not None and (wrong[0][f'self.{fld}'] is not None)
+    ctx.check(not bad_here, 'R4', f'TrialFilter applies {fld}', call.node,
+              f'selects exactly the trials satisfying every set field ({n_rows} model rows)',
+              f'TrialFilter.__call__ {"selects" if wrong and wrong[1] else "rejects"} a trial it should not: '
+              + (', '.join(f'{k}={sorted(v) if isinstance(v, frozenset) else v}' for k, v in wrong[0].items()) if wrong else ''),
+              construct=fld, func=call.qualname)
   # in-RAM supporter
   ram = ctx.index.need_class('vizier._src.pythia.local_policy_supporters.InRamPolicySupporter')
   fr = ram.methods['GetTrials']
@@ -438,13 +497,16 @@ def r7_presence(ctx) -> None:
               construct=f'{fld}:truthy-converter', func=tfc.qualname)
   # (b) __call__ and the in-RAM supporter
   call = tfc.methods['__call__']
+  wrongs, _ = _filter_model(call)
   for fld in ('ids', 'min_id', 'max_id', 'status'):
-    tests = _presence_tests(call.node, f'self.{fld}')
-    bad = [t for t, ok in tests if not ok]
+    # rows where the field is set to a falsy value (empty set, id 0) and every other field is unset
+    bad = [w for w in wrongs if w[0][f'self.{fld}'] is not None and not w[0][f'self.{fld}']
+           and all(v is None for k, v in w[0].items() if k.startswith('self.') and k != f'self.{fld}')]
     n += 1
-    ctx.check(bool(tests) and not bad, 'R7', f'TrialFilter.__call__: presence of {fld}', call.node,
-              '`is not None`', f'`self.{fld}` is tested by truthiness: an empty set / id 0 counts as "not set"',
-              construct=f'{fld}:truthy-call', func=call.qualname)
+    ctx.check(not bad, 'R7', f'TrialFilter.__call__: presence of {fld}', call.node,
+              'a field set to an empty set / to id 0 still filters (finite model)',
+              f'`self.{fld}` set to {"an empty set" if fld in ("ids", "status") else "0"} is treated as "not set": '
+              'the filter then matches trials it must reject', construct=f'{fld}:truthy-call', func=call.qualname)
   ram = ctx.index.need_class('vizier._src.pythia.local_policy_supporters.InRamPolicySupporter')
   fr = ram.methods['GetTrials']
   for arg in ('trial_ids', 'min_trial_id', 'max_trial_id'):
